@@ -58,6 +58,54 @@ theorem C14_fresh_equiv (h : Heap) (w : WF h) (r : Nat) (s s' : Spec) (l : List 
 /-- the request read from a description is the request of the proxy it describes -/
 theorem C14_request_of_spec (t : Tmpl) (p : SeqProxy) : seqReq t p = specReq (specOf t p) := rfl
 
+/-! ### variables and grids (`BaseType.__getitem__`, `GridType.__getitem__`, `output_grid` on and off)
+
+`Ev.vget r idx` is `variable[idx]`, `Ev.ggrid r key` is `grid[key]`: with `output_grid` on, one GET for the
+array and one per map paired with an entry of the Ellipsis-expanded key, all logged; the result is a new
+grid with new children holding the received arrays, children not indexed keep the (shared) proxy.
+`C14_pure` above already covers these objects: `obs` of an array proxy contains its stored slice, of a
+variable what its `data` is (proxy reference or received positions), of a grid its children and
+`_output_grid`. -/
+
+/-- the `BaseType`/`GridType` objects of an opened dataset keep the heap well-formed -/
+theorem C14_open_vars_wf (h : Heap) (w : WF h) (vars : List (Name × Nat)) (grids : List (List Nat × Bool)) :
+    WF (openVars h vars grids) := by
+  intro p hp
+  simp only [openVars, List.mem_append, List.mem_map] at hp
+  rcases hp with (hp | ⟨a, _, ha⟩) | ⟨a, _, ha⟩
+  · exact w p hp
+  · cases ha
+  · cases ha
+
+/-- **Reading a grid never changes the opened grid, any history**: the grid seen through all its
+    references — `_output_grid`, and for the array and every map the id, and the data: for a proxy its
+    id, stored slice and session, for a received array its contents — is the same after any history of
+    grid reads (maps included), variable reads, sequence derivations and reads, on any objects. -/
+theorem C14_grid_read_pure (h : Heap) (w : WF h) (evs : List Ev) (r : Nat) (v : Bool × List (Name × DataView))
+    (hv : gridView h r = some v) : gridView (run h evs) r = some v :=
+  gridView_extends (run_extends h w evs).1 hv
+
+/-- **Re-reading returns what the first read returned**: the children `grid[key]` returns (ids and
+    received arrays of the array and the maps; the answer to a GET is a function of the request) are the
+    same after any history as before it. -/
+theorem C14_grid_reread (h : Heap) (w : WF h) (evs : List Ev) (r : Nat) (key : List Idx) (l : List Obj)
+    (e : gridResult h r key = some l) : gridResult (run h evs) r key = some l :=
+  gridResult_stable (Stable.of_extends (run_extends h w evs).1 (run_src h evs)) r key e
+
+/-- the same for `variable[idx]` — an array, a map read on its own, or `grid[key]` with `output_grid`
+    off (`grid.array[key]`): the received array is the same after any history as before it -/
+theorem C14_var_reread (h : Heap) (w : WF h) (evs : List Ev) (r : Nat) (idx : List Idx) (ax : List (Bool × List Nat))
+    (e : varResult h r idx = some ax) : varResult (run h evs) r idx = some ax :=
+  varResult_stable (Stable.of_extends (run_extends h w evs).1 (run_src h evs)) r idx e
+
+/-- the objects `grid[key]` creates are exactly those children followed by the new grid that refers to
+    them (`_output_grid` on, as `__shallowcopy__` builds it); nothing else is allocated or written -/
+theorem C14_grid_read_allocates (h : Heap) (r : Nat) (key : List Idx) (l : List Obj)
+    (e : gridResult h r key = some l) :
+    (step h (.ggrid r key)).objs
+      = h.objs ++ l ++ [Obj.grid ((List.range l.length).map fun i => h.objs.length + i) true] :=
+  ggrid_objs h r key e
+
 /-- what the repair of `__copy__` (13350a5) removed: with the old `__copy__` the template is
     shared, so `A[["f","i"]]` rewrites the columns object `A` itself decodes with. -/
 theorem C14_pure_old_refuted :
@@ -72,5 +120,35 @@ example : (obs (openHeap ['u'] [] (some 7) ['s'] [['i'], ['f']] [(['a'], [3], fa
 example : specChain ⟨['u'], [['s']], [['i'], ['f']], [['i'], ['f']], false, [], [PSlice.all], some 7⟩
     [.cols [['f']], .ce [['s', '.', 'i', '>', '1']], .name ['f']]
     = some ⟨['u'], [['s'], ['f']], [], [], false, [['s', '.', 'i', '>', '1']], [PSlice.all], some 7⟩ := by decide
+
+/-- an opened dataset with array `a`, grid `g` (array `g.g` 2×3, maps `g.x`, `g.y`), `output_grid` on -/
+def exGrid : Heap :=
+  openVars (openHeap ['u'] [] (some 7) ['s'] [['i']]
+      [(['a'], [2, 3], false), (['g', '.', 'g'], [2, 3], false), (['g', '.', 'x'], [2], false), (['g', '.', 'y'], [3], false)])
+    [(['a'], 1), (['g', '.', 'g'], 2), (['g', '.', 'x'], 3), (['g', '.', 'y'], 4)] [([7, 8, 9], true)]
+
+example : (gridView exGrid 10).isSome = true := by decide
+-- `g[::2, ...]`: three GETs (array, both maps), the first map strided; the children it returns; the opened grid as before
+-- (`combine` of C03 is defined by well-founded recursion and does not reduce under `decide`: unfolded by `simp`)
+example : ((run exGrid [.ggrid 10 [Idx.sl ⟨none, none, some 2⟩, Idx.ell]]).log.map fun e => (e.2.ids, e.2.slab.length))
+    = [([['g', '.', 'g']], 2), ([['g', '.', 'x']], 1), ([['g', '.', 'y']], 1)] := by
+  simp [run, step, stepWith, gridGetitemHeap, gridFinish, pushObj, pushObjs, exGrid, openVars, openHeap, gridLoop,
+    gridIndexLists, dataRank, readData, answer, arrReq, pushLog, combine, fixSlice, expandEll, zipFix, fixAxis, fixSl,
+    toSlice, combine1, PSlice.all, orElse, expandKey, dropTrailingAll, npSlices, sel, npBound, Except.map]
+  try decide
+example : gridResult exGrid 10 [Idx.sl ⟨none, none, some 2⟩, Idx.ell]
+    = some [.var ['g', '.', 'g'] (.vals [(false, [0]), (false, [0, 1, 2])]), .var ['g', '.', 'x'] (.vals [(false, [0])]),
+            .var ['g', '.', 'y'] (.vals [(false, [0, 1, 2])])] := by
+  simp [gridResult, exGrid, openVars, openHeap, gridLoop, gridIndexLists, dataRank, readData, answer, arrReq, pushLog,
+    combine, fixSlice, expandEll, zipFix, fixAxis, fixSl, toSlice, combine1, PSlice.all, orElse, expandKey,
+    dropTrailingAll, npSlices, sel, npBound, Except.map]
+  try decide
+example : varResult ⟨[], [.var ['x'] (.vals [(false, [0, 2, 4])])], [], []⟩ 0 [Idx.sl ⟨some 1, none, none⟩]
+    = some [(false, [2, 4])] := by decide
+-- a grid already received (no proxy behind it), indexed locally by numpy: `[0]` drops the first axis
+example : gridResult ⟨[], [.var ['g'] (.vals [(false, [0, 1]), (false, [0, 1, 2])]), .var ['x'] (.vals [(false, [0, 1])]),
+      .var ['y'] (.vals [(false, [0, 1, 2])]), .grid [0, 1, 2] true], [], []⟩ 3 [Idx.int 1]
+    = some [.var ['g'] (.vals [(true, [1]), (false, [0, 1, 2])]), .var ['x'] (.vals [(true, [1])]),
+            .var ['y'] (.vals [(false, [0, 1, 2])])] := by decide
 
 end Pydap.C14
